@@ -114,3 +114,24 @@ func Hook(name string, recv interface{}) {
 		w.Trace = append(w.Trace, TraceEvent{Step: w.Steps, G: g, Name: "hook", Op: "enter", Obj: name})
 	}
 }
+
+type resetFn struct {
+	name string
+	f    func()
+}
+
+var resets []resetFn
+
+// RegisterReset registers a function that re-initialises the package-level
+// variables of one rewritten source file.
+func RegisterReset(name string, f func()) { resets = append(resets, resetFn{name, f}) }
+
+func runResets() {
+	for _, r := range resets {
+		r.f()
+	}
+}
+
+// Zero returns the zero value of T (used by the generated reset functions;
+// `new` may be shadowed in the rewritten package).
+func Zero[T any]() (z T) { return }
